@@ -47,6 +47,40 @@ def entry_point_job(job):
             "N": N, "W": W, "lam": lam}
 
 
+def floor_forms_job(job):
+    """The covariance floor itself (graphical_lasso._zero_small_elements) with the floor in every equivalent form and
+    over many magnitudes - a floor whose SQUARE or negation leaves the range of its own narrow dtype included."""
+    common.use_repo()
+    from fast_ticc import graphical_lasso
+    n, e2, seed = job
+    rng = np.random.default_rng(seed)
+    eps = 2.0 ** e2
+    # entries spread around the floor: signs, magnitudes from eps/64 to 64*eps, exact zeros, entries equal to +-eps
+    mag = eps * 2.0 ** rng.integers(-6, 7, size=(n, n))
+    M = mag * rng.choice([-1.0, 1.0], size=(n, n)) * rng.choice([0.0, 1.0, 1.0, 1.0, 1.5], size=(n, n))
+    M = (M + M.T) / 2
+    forms = [("float", float(eps)), ("np.float64", np.float64(eps)), ("np.longdouble", np.longdouble(eps))]
+    if float(np.float32(eps)) == eps:
+        forms.append(("np.float32", np.float32(eps)))
+    if float(np.float16(eps)) == eps:
+        forms.append(("np.float16", np.float16(eps)))
+    if eps == int(eps):
+        forms.append(("int", int(eps)))
+        for nm in ("int8", "int16", "int32", "int64", "uint8"):
+            if int(eps) <= np.iinfo(getattr(np, nm)).max:
+                forms.append(("np." + nm, getattr(np, nm)(int(eps))))
+    out = []
+    for name, val in forms:
+        try:
+            with np.errstate(all="ignore"):
+                r = graphical_lasso._zero_small_elements(np.copy(M), val)      # pylint: disable=protected-access
+            out.append({"key": "k", "dig": proj.dig(np.asarray(r, dtype=np.float64)), "completed": True, "form": "eps:" + name})
+        except Exception as ex:                          # pylint: disable=broad-except
+            out.append({"key": "k", "dig": "raised:" + type(ex).__name__, "completed": False, "form": "eps:" + name,
+                        "message": str(ex)[:160]})
+    return {"pid": "C18", "clause": "floor_identical_across_forms_of_the_same_value", "events": out, "n": n, "eps": eps}
+
+
 def build(tier):
     rng = random.Random(common.seed() * 69621 + 18)
     nbase = 2 if tier == "quick" else 8
@@ -54,7 +88,7 @@ def build(tier):
     for i in range(nbase):
         b = runs.gen_config(rng, 5000 + i, tier)
         # values exactly representable in every form: dyadic lambda, integer beta, dyadic epsilon
-        b.update(lam=[1.0, 0.5, 0.125, 2.0][i % 4], beta=float([2, 5, 1, 20][i % 4]), eps=[0.0, 2.0 ** -10][i % 2],
+        b.update(lam=[1.0, 0.5, 0.125, 2.0][i % 4], beta=float([2, 5, 1, 20][i % 4]), eps=[2.0 ** -13, 2.0 ** -10, 0.0, 2.0 ** -13][i % 4],
                  scale=1.0, limit=3, K=3, fe="single" if i % 2 == 0 else "joint", N=2, W=2 + i % 2)
         b["lens"] = [60] if b["fe"] == "single" else [36, 30]
         g = []
@@ -72,6 +106,10 @@ def build(tier):
     ep_jobs = [(N, W, lam, rng.randrange(1 << 30)) for (N, W) in [(1, 1), (2, 2), (3, 2), (2, 4)]
                for lam in (1.0, 0.5, 0.125, 0.0)][: (8 if tier == "quick" else 16)]
     ep = common.pmap(entry_point_job, ep_jobs)
+    fl_jobs = [(rng.choice([2, 3, 5, 8]), e2, rng.randrange(1 << 30))
+               for e2 in (-20, -14, -13, -12, -10, -4, -1, 0, 1, 2, 4, 6, 7, 8, 12)
+               for _ in range(1 if tier == "quick" else 6)]
+    ep += common.pmap(floor_forms_job, fl_jobs)
     return {"groups": groups, "traces": trs, "entry": ep}
 
 
